@@ -276,6 +276,7 @@ func (e *c29Env) other() *sql.DB {
 			e.t.Fatalf("second connection: %v", err)
 		}
 
+		db.SetMaxOpenConns(1) // so that the pragma below holds for every statement
 		_, _ = db.Exec("PRAGMA busy_timeout=10000;")
 		e.otherDB = db
 	}
